@@ -951,32 +951,36 @@ fn run_scenario(sc: &Scenario, be: &Backends, pause_ms: u64, jitter_ms: u64, see
     if sc.deadline_s > 0 && old_alive {
         if let Some(t0) = stop_sent_at {
             let dl = Duration::from_secs(sc.deadline_s as u64);
+            // watch the parked connections until the deadline, measured on this thread's clock from before the
+            // stop was sent (i.e. not later than the worker armed its own timer); what matters is this clock
+            // once the read has returned, not which branch of the read returned
+            let mut late: Vec<(usize, String, String)> = Vec::new();
             for (i, s) in slots.iter_mut().enumerate() {
                 if s.ended || s.spec.release != "never" {
                     continue;
                 }
-                // watch the connection until the deadline (measured on this thread's clock from the moment
-                // the stop was SENT, i.e. not later than the worker armed its own timer)
                 let left = dl.saturating_sub(t0.elapsed());
-                let early = match s.conn.as_mut() {
-                    Some(Conn::H2(c)) => {
-                        let (out, _) = h2_read_response(c, 1, &s.req, left);
-                        out != "timeout"
-                    }
-                    Some(Conn::H1(t)) => {
-                        let (out, _) = h1_read_response(t, &s.req, left);
-                        out != "timeout"
-                    }
-                    None => false,
+                let (out, by) = match s.conn.as_mut() {
+                    Some(Conn::H2(c)) => h2_read_response(c, 1, &s.req, left),
+                    Some(Conn::H1(t)) => h1_read_response(t, &s.req, left),
+                    None => ("timeout".to_string(), "none".to_string()),
                 };
-                if early {
-                    s.ended = true;
-                    ctl.log(json!({"e": "SlotEnd", "r": i + 1, "out": "cut", "by": "none", "req": s.req, "note": "before the deadline"}));
+                if out == "timeout" {
+                    continue;
+                }
+                s.ended = true;
+                let at = t0.elapsed();
+                if at < dl {
+                    ctl.log(json!({"e": "SlotEnd", "r": i + 1, "out": out, "by": by, "req": s.req, "note": "before the deadline", "ms_since_stop_sent": at.as_millis() as u64}));
+                } else {
+                    late.push((i, out, by));
                 }
             }
-            let left = dl.saturating_sub(t0.elapsed());
-            thread::sleep(left);
+            thread::sleep(dl.saturating_sub(t0.elapsed()));
             ctl.log(json!({"e": "DeadlineElapsed"}));
+            for (i, out, by) in late {
+                ctl.log(json!({"e": "SlotEnd", "r": i + 1, "out": out, "by": by, "req": slots[i].req}));
+            }
             for (i, s) in slots.iter_mut().enumerate() {
                 if s.ended || s.spec.release != "never" {
                     continue;
